@@ -25,6 +25,7 @@ class RayRelDriver:
         self.tol = 1e-6 if tracer == 'specialized' else 2e-3
         self.traced = 0
         self.known = []
+        self.shared = {}
 
     def stats(self):
         st = {'tracer_evaluations': self.traced}
@@ -39,7 +40,8 @@ class RayRelDriver:
         ~9 degrees of the vertical, deviation below 2 %), a divergence otherwise"""
         if err <= tol:
             return
-        if self.tracer == 'specialized' and s0 < 0.15 and err <= 2e-2:
+        # D37: the cancellation error grows like 1 / sin^2(theta): up to 2 % within ~9 degrees of the vertical, below 1e-4 up to 30 degrees
+        if self.tracer == 'specialized' and ((s0 < 0.15 and err <= 2e-2) or (s0 < 0.5 and err <= 1e-4)):
             self.known.append(('D37', '%s: %s off by %.2g (launch sin(theta) = %.3g)' % (where, what, err, s0)))
             return
         raise Divergence(where + ': ' + what, want, got)
@@ -59,9 +61,13 @@ class RayRelDriver:
         dst = np.array(st['dst'], dtype=float) * f
         ice = self.ice(e)
         self.traced += 1
-        tr = (cls or self.cls)(src, dst, ice)
+        tcls = cls or self.cls
+        tr = tcls(src, dst, ice, dz=f) if tcls is BasicRayTracer else tcls(src, dst, ice)     # the integration step scales with the geometry
         ex = bool(tr.exists)
         sols = list(tr.solutions)
+        self.rmax = float(getattr(tr, 'direct_r_max', np.nan)) if ex else np.nan
+        if cls is None:
+            self.reused(st, src, dst, ice, sols)
         where = '%s %s tracer, 2^%d x %s -> %s' % (self.kind, self.tracer if cls is None else cls.__name__, e, list(st['src']), list(st['dst']))
         if ex != (len(sols) > 0):
             raise Divergence(where + ': exists', len(sols) > 0, ex)
@@ -72,6 +78,9 @@ class RayRelDriver:
             o = {'L': float(s.path_length), 'tof': float(s.tof), 'e': np.asarray(s.emitted_direction, dtype=float),
                  'r': np.asarray(s.received_direction, dtype=float)}
             o['s0'] = float(np.hypot(o['e'][0], o['e'][1]))
+            o['beta'] = float(ice.index(src[2])) * o['s0']
+            o['rho'] = float(np.hypot(dst[0] - src[0], dst[1] - src[1]))
+            o['rmax'] = self.rmax
             self.single(where + ' solution %d' % k, k, o, src, dst, ice)
             out.append(o)
         if len(out) == 2 and (src[2] != dst[2] or np.any(src[:2] != dst[:2])):
@@ -80,6 +89,30 @@ class RayRelDriver:
             if not out[0]['L'] <= out[1]['L'] * (1 + 1e-9):
                 raise Divergence(where + ': path lengths', 'first solution not longer than the second', (out[0]['L'], out[1]['L']))
         return out
+
+    def reused(self, st, src, dst, ice, sols):
+        """one long-lived tracer per scale, endpoints re-assigned: nothing may survive from the previous endpoints"""
+        key = st['e']
+        tr = self.shared.get(key)
+        if tr is None:
+            tr = self.shared[key] = (self.cls(src.copy(), dst.copy(), ice, dz=2.0 ** st['e']) if self.cls is BasicRayTracer
+                                     else self.cls(src.copy(), dst.copy(), ice))
+        else:
+            tr.from_point = src.copy()
+            tr.to_point = dst.copy()
+        got = list(tr.solutions)
+        where = '%s %s tracer object re-used with new endpoints 2^%d x %s -> %s' % (self.kind, self.tracer, st['e'], list(st['src']), list(st['dst']))
+        if len(got) != len(sols) or bool(tr.exists) != (len(sols) > 0):
+            raise Divergence(where + ': number of solutions', len(sols), len(got))
+        for k, (a, b) in enumerate(zip(sols, got)):
+            for nm in ('path_length', 'tof'):
+                x, y = float(getattr(a, nm)), float(getattr(b, nm))
+                if abs(x - y) > 1e-9 * max(abs(x), 1e-30):
+                    raise Divergence('%s: %s of solution %d' % (where, nm, k), x, y)
+            for nm in ('emitted_direction', 'received_direction'):
+                x, y = np.asarray(getattr(a, nm), dtype=float), np.asarray(getattr(b, nm), dtype=float)
+                if not np.allclose(x, y, rtol=0, atol=1e-9):
+                    raise Divergence('%s: %s of solution %d' % (where, nm, k), list(x), list(y))
 
     def single(self, where, k, o, src, dst, ice):
         """clauses about one solution"""
@@ -124,6 +157,7 @@ class RayRelDriver:
     def reset(self, st):
         self.known = []
         self.base = self.observe(st)
+        self.prev = self.base
         # the two implementations agree
         if self.tracer == 'specialized' and self.kind in ('antarctic', 'custom'):
             other = self.observe(st, cls=BasicRayTracer)
@@ -131,8 +165,44 @@ class RayRelDriver:
                 return          # observation (DESIGN 12.5): the numerical tracer reports nothing where even the lower ray turns over
             self.match('analytic vs numerical tracer at %s -> %s' % (list(st['src']), list(st['dst'])), self.base, other, 1.0, st, 2e-3, ident=True)
 
+    def hamilton(self, st, prev, cur):
+        """d(tof)/d(rho) = n sin(theta) / c between neighbouring receiver positions"""
+        if len(prev) != len(cur) or not cur:
+            return
+        for k, (p, c) in enumerate(zip(prev, cur)):
+            drho = c['rho'] - p['rho']
+            if drho == 0:
+                continue
+            want = 0.5 * (p['beta'] + c['beta']) * drho / C
+            got = c['tof'] - p['tof']
+            err = abs(got - want) / (abs(drho) * 1.5 / C)
+            if err <= 5e-3:
+                continue
+            rel = abs(got - want) / max(p['tof'], c['tof'])          # the same deviation as a fraction of the time of flight
+            where = '%s %s solution %d, receiver moved from rho = %.2f to %.2f (2^%d x %s -> %s)' % (
+                self.kind, self.tracer, k, p['rho'], c['rho'], st['e'], list(st['src']), list(st['dst']))
+            rm = c['rmax']
+            near = np.isfinite(rm) and (min(p['rho'], c['rho']) - 3.0 * 2.0 ** st['e'] <= rm <= max(p['rho'], c['rho']) + 1.0 * 2.0 ** st['e'])
+            if self.tracer == 'specialized' and near and err <= 0.1:
+                self.known.append(('D39', where + ': d(tof) = %.4g, ray parameter predicts %.4g' % (got, want)))
+                continue
+            s0 = min(p['s0'], c['s0'])
+            if self.tracer == 'specialized' and ((s0 < 0.15 and rel <= 2e-2) or (s0 < 0.5 and rel <= 1e-4)):
+                self.known.append(('D37', where))
+                continue
+            raise Divergence(where + ': change of the time of flight vs mean ray parameter x change of distance / c', want, got)
+
     def step(self, label, st):
+        if st['last']['op'] == 'Stretch':
+            prev = self.prev
+            cur = self.observe(st)
+            if self.tracer == 'specialized':
+                self.hamilton(st, prev, cur)
+            self.prev = cur
+            self.base = cur if st['e'] == 0 else self.observe(dict(st, e=0))
+            return
         cur = self.observe(st)
+        self.prev = cur
         where = '%s %s after %s (e=%d, swapped=%s, turns=%d) at %s -> %s' % (self.kind, self.tracer, st['last']['op'], st['e'], st['swapped'],
                                                                           st['turns'], list(st['src']), list(st['dst']))
         self.match(where, self.base, cur, 2.0 ** st['e'], st, self.tol)
